@@ -132,6 +132,8 @@ class MultiCtl(BaseMultiCtl, Module):
         if self.parent is None or not down:
             return
         for i, to_mod in enumerate(self.out_links):
+            if to_mod < 0:
+                continue  # freed link slot, no destination module
             mapping = self.mappings.values[i]
             if mapping.controller == 0:
                 continue  # no destination controller mapped
@@ -167,7 +169,7 @@ class MultiCtl(BaseMultiCtl, Module):
         It is the inverse of setting value.
         """
         # [TODO] this needs to be updated to handle the new flags field
-        if index >= len(self.out_links):
+        if index >= len(self.out_links) or self.out_links[index] < 0:
             raise IndexError(f"No destination module mapped at index {index}")
         mapping = self.mappings.values[index]
         if mapping.controller == 0:
